@@ -327,6 +327,36 @@ func (fr *Frame) contractCall(st *State, c *ast.CallExpr, fn *types.Func, ct *Co
 			x.havocAllSeen = true
 			continue
 		}
+		if strings.HasPrefix(m, "arg:") {
+			// the object the named pointer argument points to (one level): every field of it
+			// gets an arbitrary value, nothing else changes
+			pn := strings.TrimSpace(strings.TrimPrefix(m, "arg:"))
+			for i, prm := range ct.Params {
+				if prm.Name != pn || i >= len(c.Args) {
+					continue
+				}
+				at := fr.typeOf(c.Args[i])
+				pt, ok := at.Underlying().(*types.Pointer)
+				if !ok {
+					fr.unsupported(st, c, "modifies arg: argument is not a pointer", nil)
+					continue
+				}
+				ref := names[pn]
+				if stt, ok := pt.Elem().Underlying().(*types.Struct); ok && x.u.sortOf(pt.Elem()) != "Time" {
+					for j := 0; j < stt.NumFields(); j++ {
+						f := stt.Field(j)
+						hv := x.havocVal("out_"+f.Name(), f.Type())
+						x.emitTypeFact(st, hv)
+						x.writeField(st, ref, pt.Elem(), f, hv)
+					}
+				} else {
+					hv := x.havocVal("out", pt.Elem())
+					x.emitTypeFact(st, hv)
+					x.writeCell(st, ref, hv)
+				}
+			}
+			continue
+		}
 		fresh := strings.HasPrefix(m, "fresh ")
 		for _, k := range x.placeKeys(x.eng.pkgs[ct.Pkg], m) {
 			old := x.getHeap(st, k)
